@@ -94,6 +94,7 @@ package keygen
 //@   modifies round.number, round.started, round.ok[*], round.save.PaillierPKs[*], round.save.NTildej[*], round.save.H1j[*], round.save.H2j[*], round.temp.KGCs[*], round.temp.kgRound2Message1s[*], round.temp.kgRound2Message2s[*], sent(round.out)
 //@   loop 0 invariant round.started && fresh(dlnProof1FailCulprits) && fresh(dlnProof2FailCulprits) && len(dlnProof1FailCulprits) == kgN(round) && len(dlnProof2FailCulprits) == kgN(round) && dlnVerifier != nil && wg != nil && h1H2Map != nil && fresh(h1H2Map)
 //@   loop 0 invariant forall k in 0..$iter :: bitlen(kgNT(round.temp.kgRound1Messages[k])) == 2048
+//@   site append#0 : [C05,C11.both-dln-proof-culprit-lists-are-consulted] $arg0 == dlnProof1FailCulprits && $arg1 == dlnProof2FailCulprits
 //@   loop 1 invariant round.started && (forall k in 0..kgN(round) :: bitlen(kgNT(round.temp.kgRound1Messages[k])) == 2048)
 //@   loop 2 invariant round.started && (forall k in 0..kgN(round) :: bitlen(kgNT(round.temp.kgRound1Messages[k])) == 2048)
 //@   loop 2 invariant forall k in 0..$iter :: (k != i ==> (round.save.NTildej[k] != nil && val(round.save.NTildej[k]) > 0 && bitlen(val(round.save.NTildej[k])) == 2048 && round.save.H1j[k] != nil && round.save.H2j[k] != nil))
